@@ -25,7 +25,7 @@ ASSUMPTIONS = [
     "state values are pairwise unequal and hashable by construction (e.g. 0, False and 0.0 are never used together)",
     "reference interpreter trusted",
 ]
-SHAPES = ["default", "plain", "preset-none", "class-default", "property", "falsy-list", "len0", "bool-false"]
+SHAPES = ["default", "plain", "preset-none", "class-default", "property", "falsy-list", "len0", "bool-false", "falsy-dict", "userdict"]
 FIELDS = ["state", "status", "st", "_state", "current", "x", "state_value", "State"]
 MIXED = ["", 0, {"$t": []}, "a", -1, {"$t": [1]}, 2.5, {"$fs": []}, "0", {"$t": [0]}, 7, "s0"]
 UNMAPPED = ["zz", -99, None, {"$t": ["zz"]}, 3.25, "", 0]
@@ -175,7 +175,14 @@ def cases(draw, tier):
         elif r < 5:
             hist.append({"op": "write_invalid", "via": draw(st.sampled_from(["setter", "model"])), "value": draw(st.sampled_from(UNMAPPED))})
         elif r < 7:
-            hist.append({"op": "reconstruct"})
+            rec = {"op": "reconstruct"}
+            if draw(st.integers(0, 2)) == 0:
+                # a second instance of the same class over a brand-new model, without (or with another) start_value
+                rec["fresh"] = True
+                if draw(st.integers(0, 2)) == 0:
+                    j = draw(st.integers(0, n - 1))
+                    rec["start_value"] = spec["states"][j]["value"] if "value" in spec["states"][j] else spec["states"][j]["id"]
+            hist.append(rec)
         hist.append(step)
     return {"spec": spec, "cfg": cfg, "history": hist, "value_kind": kind}
 
